@@ -823,7 +823,7 @@ void MEDDLY::copy_EV<EdgeOp>::_compute(int L, unsigned in,
             // Result is MT, copy edge value into terminal
             //
             bool abool;
-            int aint;
+            long aint;
             float afloat;
             cv.set();
             switch (resF->getTerminalType()) {
